@@ -853,6 +853,7 @@ static void mps_set_bound (
 	EGLPNUM_TYPE bnd)
 {
 	const char *msg = NULL;
+	int hadLower = lp->lbind[colind], hadUpper = lp->ubind[colind];
 
 	if (!strcmp (bndtype, "LO"))
 	{
@@ -881,15 +882,16 @@ static void mps_set_bound (
 	else if (!strcmp (bndtype, "UI"))
 	{
 		msg = EGLPNUM_TYPENAME_ILLraw_set_upperBound (lp, colind, bnd);
-		if (msg == NULL)
+		if (!hadUpper)
 		{
+			/* the bound was taken (msg may still carry the "0.0 upper bound" warning) */
 			lp->intmarker[colind] = 1;
 		}
 	}
 	else if (!strcmp (bndtype, "LI"))
 	{
 		msg = EGLPNUM_TYPENAME_ILLraw_set_lowerBound (lp, colind, bnd);
-		if (msg == NULL)
+		if (!hadLower)
 		{
 			lp->intmarker[colind] = 1;
 		}
